@@ -554,8 +554,13 @@ class OptionsParser:
             if handler:
                 handler(self, option, value)
             else:
-                values = cast(List[str], self.options.setdefault(option, []))
-                values.append(value)
+                values = self.options.get(option)
+
+                # The same name may have been given as a flag before
+                if not isinstance(values, list):
+                    values = self.options[option] = []
+
+                cast(List[str], values).append(value)
         else:
             self.options[option] = True
 
